@@ -73,7 +73,8 @@ def main():
         dst = os.path.join(a.keep_into, os.path.basename(sd))
         os.makedirs(dst, exist_ok=True)
         for f in ("patch.diff", "demo.py"):
-            shutil.copy(os.path.join(sd, f), os.path.join(dst, f))
+            if os.path.abspath(os.path.join(sd, f)) != os.path.abspath(os.path.join(dst, f)):
+                shutil.copy(os.path.join(sd, f), os.path.join(dst, f))
         meta["confirmed"] = {k: out.get(k) for k in ("patch_applies", "tests", "tests_green", "demo_changed_exit", "demo_unchanged_exit")}
         meta["ran"] = ["repo test-suite on a scratch copy with the patch", "demo.py with and without the patch",
                        "./run.py check <prop> --tier %s with VERIF_REPO=<scratch copy>" % a.tier]
